@@ -254,6 +254,10 @@ def ite(c, a, b):
         return a
     if c.op == "not":
         return ite(c.a[0], b, a)
+    if a is c:
+        a = TRUE
+    if b is c:
+        b = FALSE
     if a is TRUE and b is FALSE:
         return c
     if a is FALSE and b is TRUE:
